@@ -150,7 +150,25 @@ func c18StringClasses() []c18Class {
 			}
 		}
 	}
+	// the unpadded bound is written with MORE characters than the zero-padded one ([08..100],
+	// [100..08], [-10..05]): the width is still that of the zero-padded bound
+	var padNarrow []c18Case
+	for _, w := range []int{2, 3} {
+		for _, m := range []int{0, 5, 8} {
+			pm := c18Pad(m, w)
+			if pm[0] != '0' {
+				continue
+			}
+			for _, n := range []int{-11, -10, 100, 104, 1000} {
+				if len(strconv.Itoa(n)) <= w {
+					continue
+				}
+				padNarrow = append(padNarrow, c18Case{pm, strconv.Itoa(n), c18Ref(m, n, w)}, c18Case{strconv.Itoa(n), pm, c18Ref(n, m, w)})
+			}
+		}
+	}
 	return []c18Class{
+		{"pad:narrower-than-other-bound", "one bound is zero-padded and the other, unpadded, bound is written with more characters ([08..100], [100..08], [-10..05]): every element is zero-padded to the width of the zero-padded bound, not to the longer text", padNarrow},
 		{"asc", "[m..n], m<n: every integer from m up to n inclusive", asc},
 		{"desc", "[m..n], m>n: every integer from m down to n inclusive", desc},
 		{"single", "[m..m]: the single integer m", single},
